@@ -587,3 +587,63 @@ func TestWitnessSubjectsLiveTerminal(t *testing.T) {
 		}
 	}
 }
+
+// TestWitnessHandOffLive: the hand-off operators let a producer run ahead of a stalled consumer by at most their
+// capacity plus the one value each side holds. The consumer blocks inside its first callback; the producer emits from
+// its own goroutine; after a pause the number of Next calls that returned is at most capacity + 1 (and one more may
+// be in flight). Bounded (capacities 1..4 and 8, one pause); it only backs UNDECIDED units.
+func TestWitnessHandOffLive(t *testing.T) {
+	type mk struct {
+		kind string
+		op   func(int) func(Observable[int]) Observable[int]
+	}
+	for _, mkr := range []mk{
+		{"ObserveOn", func(c int) func(Observable[int]) Observable[int] { return ObserveOn[int](c) }},
+		{"SubscribeOn", func(c int) func(Observable[int]) Observable[int] { return SubscribeOn[int](c) }},
+	} {
+		for _, capacity := range []int{1, 2, 3, 4, 8} {
+			src := NewPublishSubject[int]()
+			release := make(chan struct{})
+			var got int32
+			subscribed := make(chan Subscription, 1)
+			go func() { // SubscribeOn consumes on the goroutine that subscribes: Subscribe returns when the stream ends
+				subscribed <- mkr.op(capacity)(src.AsObservable()).Subscribe(NewObserver(func(v int) {
+					if atomic.AddInt32(&got, 1) == 1 {
+						<-release
+					}
+				}, func(error) {}, func() {}))
+			}()
+			for i := 0; i < 2000 && !src.HasObserver(); i++ {
+				time.Sleep(time.Millisecond)
+			}
+			var returned int32
+			stop := make(chan struct{})
+			var wg sync.WaitGroup
+			wg.Add(1)
+			go func() {
+				defer wg.Done()
+				for v := 0; v < 64; v++ {
+					select {
+					case <-stop:
+						return
+					default:
+					}
+					src.Next(v)
+					atomic.AddInt32(&returned, 1)
+				}
+			}()
+			time.Sleep(60 * time.Millisecond)
+			lead := int(atomic.LoadInt32(&returned))
+			close(stop)
+			close(release)
+			wg.Wait()
+			src.Complete()
+			(<-subscribed).Wait()
+			if lead > capacity+1 {
+				fmt.Printf("REPLAY-FAIL %s(%d): with the consumer stalled in its first callback %d Next calls of the producer returned, at most capacity + 1 = %d may\n", mkr.kind, capacity, lead, capacity+1)
+				t.Errorf("WITNESS %s(%d): producer ran ahead by %d", mkr.kind, capacity, lead)
+				return
+			}
+		}
+	}
+}
